@@ -540,6 +540,38 @@ func (h *H) fieldNormalised() []uint64 {
 	return o
 }
 
+// chainSweep: the deterministic counterpart of chainWalk - for every digit position of m in base 2^w, the digits
+// above equal m's, the digit itself is m's -1 and m's +1 (when representable), and the lower digits are all 0,
+// all max, or m's own: every arm of a most-significant-first compare chain against m is taken with both
+// outcomes whatever the random stream does.
+func chainSweep(m *big.Int, w uint, n int) []*big.Int {
+	mask := new(big.Int).Sub(new(big.Int).Lsh(big.NewInt(1), w), big.NewInt(1))
+	var out []*big.Int
+	for pos := n - 1; pos >= 0; pos-- {
+		hiPart := new(big.Int).Rsh(m, uint(pos+1)*w)
+		d := new(big.Int).And(new(big.Int).Rsh(m, uint(pos)*w), mask)
+		lim := mask
+		if pos == n-1 {
+			lim = new(big.Int).Sub(new(big.Int).Lsh(big.NewInt(1), 256-uint(n-1)*w), big.NewInt(1))
+			d = new(big.Int).Rsh(m, uint(pos)*w)
+			hiPart = big.NewInt(0)
+		}
+		lowMax := new(big.Int).Sub(new(big.Int).Lsh(big.NewInt(1), uint(pos)*w), big.NewInt(1))
+		lowOwn := new(big.Int).And(m, lowMax)
+		for _, delta := range []int64{-1, 1} {
+			dv := new(big.Int).Add(d, big.NewInt(delta))
+			if dv.Sign() < 0 || dv.Cmp(lim) > 0 {
+				continue
+			}
+			base := new(big.Int).Lsh(new(big.Int).Or(new(big.Int).Lsh(hiPart, w), dv), uint(pos)*w)
+			for _, low := range []*big.Int{big.NewInt(0), lowMax, lowOwn} {
+				out = append(out, new(big.Int).Or(base, low))
+			}
+		}
+	}
+	return out
+}
+
 // chainWalk: a 256-bit value built relative to the constant m in base 2^w (n digits): digits above a random
 // position equal m's, that digit is m's -1 / +0 / +1 / random, lower digits are each 0, max, m's digit, m's
 // digit +-1 or random.  Exercises every arm of a most-significant-first compare chain against m.
